@@ -149,6 +149,18 @@ class Interp(object):
             return len(args[0][1])
         if name in ('fabs', '__builtin_fabs') and args and isinstance(args[0], (int, float)):
             return abs(float(args[0]))
+        if name in ('memcpy', '__builtin_memcpy', '__builtin___memcpy_chk') and len(args) >= 3 and \
+                all(isinstance(a_, tuple) and a_[0] == 'n' for a_ in args[:2]):
+            # a node copied as a whole over another (sizeof(cJSON) bytes): every field of the destination becomes the source's
+            if args[0][1] in self.heap.deleted or args[1][1] in self.heap.deleted:
+                raise ShapeViolation('memcpy on a deleted node %s' % where)
+            self.heap.nodes[args[0][1]] = dict(self.heap.nodes[args[1][1]])
+            return args[0]
+        if name in ('memset', '__builtin_memset') and len(args) >= 3 and isinstance(args[0], tuple) and args[0][0] == 'n' and args[1] == 0:
+            f0 = self.heap.nodes[args[0][1]]
+            for k_ in list(f0):
+                f0[k_] = None if k_ in ('next', 'prev', 'child', 'valuestring', 'string') else 0
+            return args[0]
         if name in ('compare_strings', 'strcmp', 'case_insensitive_strcmp') and len(args) >= 2 and \
                 all(isinstance(a, tuple) and a[0] == 'str' for a in args[:2]):
             # the comparators are TAB20's business; here they are their contract: the sign of the byte-wise comparison
